@@ -377,6 +377,152 @@ pub fn value_of(ty: VariantType, rng: &mut StdRng, refs: &[Ref], xml_safe: bool)
     })
 }
 
+/// Deterministic edge values of one type: the special cases of the seeded generators written out in full
+/// (they do not depend on the run's seed), followed by `k` draws from a generator seeded by the type alone.
+pub fn boundary_values(ty: VariantType, xml_safe: bool, k: usize) -> Vec<Variant> {
+    let mut out: Vec<Variant> = Vec::new();
+    let origin = Vector3::new(0.0, 0.0, 0.0);
+    match ty {
+        VariantType::Float32 => out.extend(F32_SPECIAL.iter().map(|b| Variant::Float32(f32::from_bits(*b)))),
+        VariantType::Bool => out.extend([Variant::Bool(false), Variant::Bool(true)]),
+        VariantType::String => out.extend(
+            ["", " ", "  lead", "trail  ", "a]]>b", "<tag attr=\"v\">&amp;</tag>", "line1\nline2", "\t", "\n", " \n\t ", "]]>", "]]>]]>", "&lt;",
+             "h\u{e9}llo w\u{f6}rld", "\u{1F600}", "null", "<null></null>"]
+                .iter()
+                .map(|t| Variant::String(t.to_string())),
+        ),
+        VariantType::BinaryString => out.extend(
+            [Vec::new(), vec![0u8], vec![0xff, 0xfe, 0x00, 0x80], (0..=255u8).collect::<Vec<u8>>(), b" \n".to_vec(), b"plain".to_vec()].into_iter().map(|b| Variant::BinaryString(b.into())),
+        ),
+        VariantType::SharedString => out.extend(
+            [Vec::new(), vec![0u8], vec![0xff, 0x00, 0x7f], (0..=255u8).collect::<Vec<u8>>(), b"shared-one".to_vec()].into_iter().map(|b| Variant::SharedString(SharedString::new(b))),
+        ),
+        VariantType::Content => out.extend(
+            [Content::none(), Content::from_uri(""), Content::from_uri("rbxassetid://77"), Content::from_uri("rbxasset://a b.png"), Content::from_uri("http://x/?a=1&b=<2>"), Content::from_uri(" ")]
+                .into_iter()
+                .map(Variant::Content),
+        ),
+        VariantType::ContentId => out.extend(["", " ", "rbxassetid://1", "http://x/y?z=1&w=<2>"].iter().map(|t| Variant::ContentId((*t).into()))),
+        VariantType::CFrame | VariantType::OptionalCFrame => {
+            let mut ms = signed_permutations();
+            let all = signed_permutations();
+            for m in [all[0], all[5], all[17], all[30], all[41]] {
+                ms.push(Matrix3::new(m.x, m.y, origin));
+                ms.push(Matrix3::new(m.x, m.x, m.z));
+                ms.push(Matrix3::new(Vector3::new(m.x.x * 0.99999994, m.x.y, m.x.z), m.y, m.z));
+            }
+            ms.push(Matrix3::new(Vector3::new(2.0, 0.0, 0.0), Vector3::new(0.0, 2.0, 0.0), Vector3::new(0.0, 0.0, 2.0)));
+            ms.push(Matrix3::new(Vector3::new(0.6, -0.8, 0.0), Vector3::new(0.8, 0.6, 0.0), Vector3::new(0.0, 0.0, 1.0)));
+            for (i, m) in ms.into_iter().enumerate() {
+                let pos = if i % 7 == 3 { Vector3::new(-0.0, 1e-40, f32::MAX) } else { Vector3::new(i as f32, -0.5, 1024.25) };
+                let cf = CFrame::new(pos, m);
+                out.push(if ty == VariantType::CFrame { Variant::CFrame(cf) } else { Variant::OptionalCFrame(Some(cf)) });
+            }
+            if ty == VariantType::OptionalCFrame {
+                out.push(Variant::OptionalCFrame(None));
+            }
+        }
+        VariantType::Int32 => out.extend([0, 1, -1, i32::MIN, i32::MAX, i32::MIN + 1, i32::MAX - 1, 255, -256].iter().map(|v| Variant::Int32(*v))),
+        VariantType::Int64 => out.extend(
+            [0, 1, -1, i64::MIN, i64::MAX, i64::MIN + 1, i32::MAX as i64 + 1, i32::MIN as i64 - 1, 1 << 40, (1 << 53) + 1].iter().map(|v| Variant::Int64(*v)),
+        ),
+        VariantType::Float64 => out.extend(
+            [0u64, 0x8000_0000_0000_0000, 0x3ff0_0000_0000_0000, 0x7ff0_0000_0000_0000, 0xfff0_0000_0000_0000, 0x7ff8_0000_0000_0000, 1,
+             0x000f_ffff_ffff_ffff, 0x7fef_ffff_ffff_ffff, 0x3fb9_9999_9999_999a, 0x3fd5_5555_5555_5555]
+                .iter()
+                .map(|b| Variant::Float64(f64::from_bits(*b))),
+        ),
+        VariantType::Color3 => out.extend(
+            [(0.0, 0.0, 0.0), (1.0, 1.0, 1.0), (0.5, 0.25, 0.125), (1.0 / 255.0, 254.0 / 255.0, 0.1), (2.0, -1.0, 0.0), (f32::INFINITY, f32::NEG_INFINITY, f32::NAN), (0.999999, 0.001, 0.5019608)]
+                .iter()
+                .map(|c| Variant::Color3(Color3::new(c.0, c.1, c.2))),
+        ),
+        VariantType::Color3uint8 => out.extend([(0, 0, 0), (255, 255, 255), (1, 2, 3), (128, 127, 254)].iter().map(|c| Variant::Color3uint8(Color3uint8::new(c.0, c.1, c.2)))),
+        VariantType::BrickColor => out.extend(BRICK_NUMBERS.iter().filter_map(|n| BrickColor::from_number(*n)).map(Variant::BrickColor)),
+        VariantType::Enum => out.extend([0u32, 1, 255, 256, 65536, i32::MAX as u32, u32::MAX].iter().map(|v| Variant::Enum(Enum::from_u32(*v)))),
+        VariantType::Axes => out.extend((0..8u8).filter_map(Axes::from_bits).map(Variant::Axes)),
+        VariantType::Faces => out.extend([0u8, 1, 2, 4, 8, 16, 32, 63, 42].iter().filter_map(|b| Faces::from_bits(*b)).map(Variant::Faces)),
+        VariantType::SecurityCapabilities => out.extend([0u64, 1, u64::MAX, 1 << 63, 0xdead_beef_0000_0001].iter().map(|b| Variant::SecurityCapabilities(SecurityCapabilities::from_bits(*b)))),
+        VariantType::UniqueId => out.extend(
+            [(0u32, 0u32, 0i64), (1, 2, 3), (u32::MAX, u32::MAX, i64::MAX), (7, 8, -1), (0x0102_0304, 0x0506_0708, 0x090a_0b0c_0d0e_0f10), (9, 9, i64::MIN + 1)]
+                .iter()
+                .map(|u| Variant::UniqueId(UniqueId::new(u.0, u.1, u.2))),
+        ),
+        VariantType::PhysicalProperties => {
+            out.push(Variant::PhysicalProperties(PhysicalProperties::Default));
+            for v in [0.0f32, 1.0, -0.0, f32::INFINITY, f32::NAN, 0.7] {
+                out.push(Variant::PhysicalProperties(PhysicalProperties::Custom(CustomPhysicalProperties { density: v, friction: 0.3, elasticity: v, friction_weight: 1.0, elasticity_weight: v })));
+            }
+        }
+        VariantType::NumberRange => out.extend(
+            [(0.0, 0.0), (-1.5, 1.5), (f32::NEG_INFINITY, f32::INFINITY), (f32::NAN, 1.0), (1.0, f32::NAN), (-0.0, 1e-40)].iter().map(|r| Variant::NumberRange(NumberRange::new(r.0, r.1))),
+        ),
+        VariantType::Tags => {
+            for list in [vec![], vec!["alpha"], vec!["alpha", "beta gamma", "\u{e9}t\u{e9}"], vec!["x", "x"], vec![" lead", "trail "]] {
+                let mut t = Tags::new();
+                for x in list {
+                    t.push(x);
+                }
+                out.push(Variant::Tags(t));
+            }
+        }
+        VariantType::MaterialColors => {
+            out.push(Variant::MaterialColors(MaterialColors::new()));
+            let mut m = MaterialColors::new();
+            m.set_color(TerrainMaterials::Grass, Color3uint8::new(0, 0, 0));
+            m.set_color(TerrainMaterials::Salt, Color3uint8::new(255, 254, 253));
+            out.push(Variant::MaterialColors(m));
+        }
+        _ => {}
+    }
+    let mut rng: StdRng = rand::SeedableRng::seed_from_u64(0xB0D0_0000 + ty as u64);
+    for _ in 0..k {
+        if let Some(v) = value_of(ty, &mut rng, &[], xml_safe) {
+            out.push(v);
+        }
+    }
+    if xml_safe {
+        // rbx_xml cannot write Content object references yet (recorded C02 finding)
+        out.retain(|v| !matches!(v, Variant::Content(c) if matches!(c.value(), ContentType::Object(_))));
+    }
+    out
+}
+
+/// Forests that carry every boundary value of every type: under the first database-known canonical property of
+/// the type, under the first alias spelling of one, and (with_unknown) under a property of a class the database
+/// does not know.  Several instances of the class per forest, so columns and defaults take part.
+pub fn boundary_doms(types: &[VariantType], known: &[KnownProp], xml_safe: bool, k: usize, with_unknown: bool, per_dom: usize) -> Vec<(String, WeakDom)> {
+    let mut out = Vec::new();
+    for ty in types {
+        let values = boundary_values(*ty, xml_safe, k);
+        if values.is_empty() {
+            continue;
+        }
+        let usable = |p: &&KnownProp| p.ty == *ty && p.name != "UniqueId" && p.name != "Name";
+        let mut places: Vec<(String, String)> = Vec::new();
+        if let Some(p) = known.iter().filter(usable).find(|p| !p.is_alias) {
+            places.push((p.class.clone(), p.name.clone()));
+        }
+        if let Some(p) = known.iter().filter(usable).find(|p| p.is_alias) {
+            places.push((p.class.clone(), p.name.clone()));
+        }
+        if with_unknown {
+            places.push(("VerifBoundary".to_string(), format!("B{:?}", ty)));
+        }
+        for (class, name) in places {
+            for (gi, group) in values.chunks(per_dom).enumerate() {
+                let mut dom = WeakDom::new(InstanceBuilder::new("DataModel"));
+                let root = dom.root_ref();
+                for (i, v) in group.iter().enumerate() {
+                    dom.insert(root, InstanceBuilder::new(class.as_str()).with_name(format!("V{}", i)).with_property(name.as_str(), v.clone()));
+                }
+                out.push((format!("{:?}.{}.{}.{}", ty, class, name, gi), dom));
+            }
+        }
+    }
+    out
+}
+
 pub const BINARY_TYPES: [VariantType; 36] = [
     VariantType::String, VariantType::BinaryString, VariantType::ContentId, VariantType::Tags, VariantType::MaterialColors,
     VariantType::Attributes, VariantType::Bool, VariantType::Int32, VariantType::Float32, VariantType::Float64,
